@@ -222,16 +222,23 @@ def existing_under(job):
         try:
             m = parse_message('MSH|^~\\&|S|F|R|RF|2020||ADT^A01^ADT_A01|1|P|2.4\rEVN||2020\rPID|1||a^^^b&c~d\rPV1|1|I')
             s = parse_segment('PID|1||x^y', version='2.3', validation_level=VL.TOLERANT)
-            m2 = Message('ADT_A01')                 # built under the defaults of A on purpose: must keep them
-            m2.msh.msh_7 = '2020'
-            m2.pid.pid_3 = 'q'
         except Exception as ex:  # noqa
-            # (these constructions name their version explicitly or read it from MSH-12 and succeed under every default on the unchanged tree;
+            # (these two constructions name their version explicitly or read it from MSH-12 and succeed under every default on the unchanged tree;
             #  a failure here is a dependence on the defaults, reported as such by the caller)
             return json.dumps(['construction-failed', vlib.exc_name(ex) + ': ' + str(ex)[:200]])
-        before = obs([m, s, m2])
+        els = [m, s]
+        try:
+            # built under the defaults of A on purpose (it must keep them when the defaults change). Whether this construction succeeds is allowed
+            # to depend on A — under ('2.1', STRICT) PID-3 is numeric — so a failure here is no finding: the element is then left out
+            m2 = Message('ADT_A01')
+            m2.msh.msh_7 = '2020'
+            m2.pid.pid_3 = '1'
+            els.append(m2)
+        except Exception:  # noqa
+            pass
+        before = obs(els)
         setd(b)
-        after = obs([m, s, m2])
+        after = obs(els)
         return json.dumps([before, after], default=str)
     finally:
         _restore_defaults(saved)
@@ -302,7 +309,7 @@ def run(tier, seed):
         b, a = json.loads(r)
         if b == 'construction-failed':
             chk.fail(None, {'clause': 'explicit-arguments-override-defaults', 'defaults': str(p[0]), 'raised': a,
-                            'calls': "parse_message(<MSH-12 = 2.4>); parse_segment('PID|1||x^y', version='2.3', validation_level=TOLERANT); Message('ADT_A01'); m.msh.msh_7 = '2020'; m.pid.pid_3 = 'q'"},
+                            'calls': "parse_message(<MSH-12 = 2.4>); parse_segment('PID|1||x^y', version='2.3', validation_level=TOLERANT)"},
                      {'api': 'constructions with explicit version / MSH-12 under other defaults', 'from': p[0], 'to': p[1]})
         elif b != a:
             chk.fail(None, {'clause': 'changing-defaults-does-not-alter-existing-elements', 'from': str(p[0]), 'to': str(p[1]), 'before': b, 'after': a},
